@@ -460,9 +460,6 @@ func (m *Machine) assert(label string, c T, pos string) {
 	case smt.Sat:
 		// violated for some values: the path continues unconstrained so that every later
 		// obligation is decided independently of this one
-		if c.IsFalse() {
-			m.end(StOK, "path ends after failed assertion %s", label)
-		}
 	}
 }
 
